@@ -211,6 +211,13 @@ func (sqlTx *SQLTx) Commit(ctx context.Context) error {
 		return err
 	}
 
+	if sqlTx.mutatedCatalog {
+		// until the cached catalog is invalidated (below), it may be older
+		// than the snapshot of a transaction opened from now on
+		sqlTx.engine.ddlCommitsInFlight.Add(1)
+		defer sqlTx.engine.ddlCommitsInFlight.Add(-1)
+	}
+
 	// no need to wait for indexing to be up to date during commit phase
 	sqlTx.txHeader, err = sqlTx.tx.AsyncCommit(ctx)
 	if err != nil && !errors.Is(err, store.ErrNoEntriesProvided) {
